@@ -4,6 +4,7 @@ Tie K2: histories with the lifecycle commands of harness/k2_life.h (lock2, backu
 wrongcmp, failopen) replayed on the engine model and the lock model; tie K1: ldb_destroy on
 scratch directories against destroy_tree (the Filename.v model of ldb_parse_filename)."""
 import os
+from concurrent.futures import ThreadPoolExecutor
 import vlib, k2check
 
 # corpus: one history touching every lifecycle command in the three database states of the
@@ -53,7 +54,7 @@ def destroy_cases(rng, tier):
     cases.append(('destroy_case ' + ','.join(hx(n) for n in OWN + FOREIGN), 'own+foreign'))
     cases.append(('destroy_case .', 'empty'))
     # (c) random directories: own names, mutated own names, foreign names; with and without a lost subdirectory
-    ndirs = 250 if tier == 'quick' else 6000
+    ndirs = 200 if tier == 'quick' else 6000
     for _ in range(ndirs):
         def pick_names(maxn):
             out = []
@@ -77,7 +78,8 @@ def destroy_cases(rng, tier):
         cases.append((line, kind))
     return cases
 
-def run_destroy(rep, tier, seed):
+def compute_destroy(tier, seed):
+    """both drivers on the destroy cases (no reporting: runs in a thread next to the K2 histories)"""
     out = vlib.scratch_dir()
     k1 = vlib.build_k1(out, 'nothread')
     model = vlib.ensure_model()
@@ -86,6 +88,9 @@ def run_destroy(rep, tier, seed):
     lines = [c[0] for c in cases]
     c = vlib.run_lines(k1, lines, env={'K1_TMPDIR': tmp}, shards=8)
     m = vlib.run_lines(model, lines, shards=4)
+    return cases, lines, c, m, len(os.listdir(tmp))
+
+def report_destroy(rep, cases, lines, c, m, left):
     rep.evaluated(len(lines))
     hist = {}
     kept = gone = 0
@@ -95,24 +100,27 @@ def run_destroy(rep, tier, seed):
         elif not co.startswith('EXC'): kept += 1
         rep.nontrivial(('destroy', l))
     bad = vlib.diff_cases(rep, lines, c, m, 'ldb_destroy vs destroy_tree')
-    left = os.listdir(tmp)
     rep.cov['destroy'] = {'cases': len(lines), 'by_kind': hist, 'directory_removed': gone, 'something_kept': kept,
                           'mismatches': bad, 'harness_errors': sum(1 for x in c if x.startswith('EXC') or x.startswith('CRASH')),
-                          'scratch_left_behind': len(left)}
+                          'scratch_left_behind': left}
     rep.sample({'destroy_case': lines[-1], 'implementation': c[-1], 'model': m[-1]})
 
 def run(rep, tier, seed):
     pr = vlib.coq_check('C20'); rep.add_proof(pr)
     if not pr['ok']:
         rep.violation({'kind': 'proof-broken', 'log': pr['log'][-3000:], 'forbidden': pr['forbidden']}, suffix='no-failing-input-found')
-    nh, nops = (32, 100) if tier == 'quick' else (1200, 300)
-    res = k2check.run_k2(rep, 'C20', tier, seed, 'c20', nh, nops, extra_histories=[CORPUS])
+    nh, nops = (24, 90) if tier == 'quick' else (1200, 300)
+    vlib.ensure_model()
+    with ThreadPoolExecutor(1) as ex:
+        fut = ex.submit(compute_destroy, tier, seed)
+        res = k2check.run_k2(rep, 'C20', tier, seed, 'c20', nh, nops, extra_histories=[CORPUS])
+        dres = fut.result()
     life = {}
     for r in res:
         for k, v in r['res'].stats.items():
             if k.startswith('life_'): life[k[5:]] = life.get(k[5:], 0) + v
     rep.cov['lifecycle_ops'] = life
-    run_destroy(rep, tier, seed)
+    report_destroy(rep, *dres)
     rep.cov['rule'] = ('K2: histories as for C01 plus lock2 (second ldb_open of the open directory must fail, the record lock on LOCK probed '
                        'from a forked child must still be held afterwards), backup n / bscan n (ldb_backup, the backup opened through a second '
                        'handle must scan equal to the model view of the moment it was taken, also after any later operation of the source), '
